@@ -83,6 +83,10 @@ DIRECTED = [
     {"grid": [3, 5, 2], "chunk": 2, "rem": [0, 1, 1], "minishard_bits": 1, "shard_bits": 13,
      "preshift_bits": 1, "minishard_index_encoding": "raw", "data_encoding": "gzip",
      "data_type": "uint32", "num_channels": 2},
+    # single chunks of 2 MiB (readers that split or stream large byte ranges)
+    {"grid": [2, 1, 1], "chunk": 64, "rem": [63, 63, 63], "minishard_bits": 0,
+     "shard_bits": 1, "preshift_bits": 0, "minishard_index_encoding": "raw",
+     "data_encoding": "raw", "data_type": "uint64", "num_channels": 1},
 ]
 
 
